@@ -539,6 +539,9 @@ func (d *DFA) accept(state uint32) (uint32, uint32) {
 
 // Perms returns the two accept words for s.
 func (d *DFA) Perms(s string) (uint32, uint32) {
+	if d == nil {
+		return 0, 0 // no automaton: nothing is granted
+	}
 	return d.accept(d.Match([]byte(s)))
 }
 
